@@ -193,7 +193,10 @@ func runAttach(sc *AScn, prefix []int, sig []uint32) (*vsched.Exec, string, stri
 	x := vsched.Run(vsched.Config{Prefix: prefix, PrefixSig: sig}, nil, func() {
 		done := 0
 		callsA := 0
-		vsched.Go(func() { ea = packets.SetBPFAndDrain(schedConn{fd: pa.rx, lockAt: sc.RefuseA, calls: &callsA}, progA); done++ })
+		vsched.Go(func() {
+			ea = packets.SetBPFAndDrain(schedConn{fd: pa.rx, lockAt: sc.RefuseA, calls: &callsA}, progA)
+			done++
+		})
 		vsched.Go(func() { eb = packets.SetBPFAndDrain(schedConn{fd: pb.rx}, progB); done++ })
 		vsched.Block(doneW{&done, 2}, -1, "join attaches")
 	})
